@@ -18,8 +18,8 @@ CLAIMS = {
   "note": "Outside: float NaN comparison semantics, strings, date/time, CASE, overload resolution, multi-row batches and dictionary/constant input formats (thorough adds some). NULL input rows use the AllInvalid validity representation (bitmap inputs to the binary executor exceed 14 GB in CBMC).",
   "design": "§3 C05"},
  "C10": {
-  "text": "Bounded model checking of the page-level Parquet decoders against reference decoders written from the format definition: LSB-first bit unpacking (incl. the carried bit position), ULEB128, zigzag (bijection over all 64-bit values), the RLE/bit-packing hybrid decoder step by step from an arbitrary valid decoder state (RLE step, literal step at every bit position, run-header step) and DELTA_BINARY_PACKED value reconstruction with wrapping arithmetic. Each obligation includes resume invariance: decoding n values in one call = decoding k then n-k (a run / miniblock continued in the next output batch). Found and fixed: the delta decoder repeated a value at the start of every continued read.",
-  "note": "Sizes (output length, split point, run length, bit width) are concrete per harness, data bytes / values / bit positions symbolic (symbolic sizes make CBMC merge infeasible error returns into the decoder state). Outside: thrift footer and page headers, compression codecs, dictionary pages, DELTA_LENGTH/DELTA_BYTE_ARRAY, BYTE_STREAM_SPLIT, PLAIN with definition levels, column reader across pages/row groups, metadata table functions.",
+  "text": "Bounded model checking of the page-level Parquet decoders against reference decoders written from the format definition: LSB-first bit unpacking (incl. the carried bit position), ULEB128, zigzag (bijection over all 64-bit values), the RLE/bit-packing hybrid decoder step by step from an arbitrary valid decoder state (RLE step, literal step at every bit position, run-header step), DELTA_BINARY_PACKED value reconstruction with wrapping arithmetic, the end of a DELTA_BINARY_PACKED length stream (single-value page without a block, completely filled block, padded last miniblock) for DELTA_LENGTH_BYTE_ARRAY / DELTA_BYTE_ARRAY, DELTA_LENGTH_BYTE_ARRAY and DELTA_BYTE_ARRAY row reconstruction, BYTE_STREAM_SPLIT, dictionary lookup, PLAIN with definition levels (NULL positions), INT96 timestamps on both sides of 1970 and RLE BOOLEAN runs. Each streaming obligation includes resume invariance: decoding n values in one call = decoding k then n-k (a run / miniblock / prefix continued in the next output batch). Found and fixed: the delta decoder repeated a value at the start of every continued read; INT96 timestamps before 1970 underflowed; a single-value delta page and a completely filled delta block failed on valid pages.",
+  "note": "Sizes (output length, split point, run length, bit width, string lengths) are concrete per harness, data bytes / values / bit positions symbolic (symbolic sizes make CBMC merge infeasible error returns into the decoder state or copy an unbounded number of bytes). Stub (stated): ReaderErrorState::set_error_fn is a flag-recording stub in the array-level harnesses; the real pair is decided by c19_reader_error_state. Outside: thrift footer and page headers, compression codecs, page_reader (page header arithmetic, level buffers), column reader across pages/row groups, FIXED_LEN_BYTE_ARRAY readers, metadata table functions.",
   "design": "§3 C10"},
  "C15": {
   "text": "Narrow claim: the run-time kernels reachable from well-formed SQL return a value or an error in bounded time for every argument value, decided by the kernel harnesses tagged C15 (integer operators' unrepresentable region, gcd/lcm extremes, substring / left / right / lpad with extreme or negative arguments, generate_series at the i64 limits, decimal type arithmetic with negative scales). The integer-operator panics are known findings F1/F2/F17; the hangs and panics in the string kernels, generate_series and the decimal type rule were found and fixed.",
@@ -34,8 +34,8 @@ CLAIMS = {
   "note": "Outside: DESCRIBE vs result schema, UNION type unification, overload resolution, timestamp units; DecimalMul's rule lives inside bind() and is not harnessed.",
   "design": "§3 C18"},
  "C19": {
-  "text": "Bounded model checking of the same decoder layer with NO validity assumption on the bytes: arbitrary / truncated buffers, arbitrary bit width bytes and arbitrary delta headers must produce Ok or Err - no panic, no division by zero, no read past the buffer (Kani's pointer checks + the cursor's debug assertions). Found and fixed: mask-table index out of bounds for widths > 64, reads past the end in bit_unpack, read_unsigned_vlq and the RLE run value, division by zero on a zero miniblock count.",
-  "note": "Outside: thrift compact-protocol decoder, codecs, page_reader size arithmetic, whole-file truncation, CSV. Unbounded `vec![0; mini_block_count]` in the delta header (allocation bounded only by the varint) is documented in DESIGN.md as an open finding not expressible as a Kani check within bounds.",
+  "text": "Bounded model checking of the same decoder layer with NO validity assumption on the bytes: arbitrary / truncated buffers, arbitrary bit width bytes, arbitrary delta headers, pages that announce more values than they store (PLAIN, BYTE_STREAM_SPLIT, DELTA_LENGTH_BYTE_ARRAY, DELTA_BYTE_ARRAY), negative or oversized decoded lengths, dictionary indices outside the dictionary, arbitrary INT96 bytes and arbitrary RLE BOOLEAN run values must produce Ok or Err - no panic, no division by zero, no read past the buffer, no invalid bool (Kani's pointer checks + the cursor's debug assertions). Found and fixed: mask-table index out of bounds for widths > 64, reads past the end in bit_unpack, read_unsigned_vlq, the RLE run value, the delta block header and miniblock padding, division by zero on a zero miniblock count, unbounded bit-width table, unchecked reads in the PLAIN value readers / BYTE_STREAM_SPLIT / DELTA_LENGTH_BYTE_ARRAY, unchecked indexing by the announced row count, dictionary index panics, INT96 overflow panics, bool read from an arbitrary byte (confirmed with Miri).",
+  "note": "Outside: thrift compact-protocol decoder, codecs, page_reader size arithmetic (copy_from_slice length mismatches, level length prefixes), whole-file truncation, CSV. State-based harnesses assume only what the constructors' validation establishes (stated per harness).",
   "design": "§3 C19"},
  "C11": {
   "text": "Bounded model checking of row-group pruning soundness: for PrimitiveRowGroupPruner over every (physical, logical) integer pairing the reader instantiates, symbolic statistics that are correct for the stored value (logical order for min_value/max_value, signed physical order for the deprecated fields), symbolic exactness flags and a symbolic filter constant: prune => stored value != constant. Found and fixed: unsound pruning of unsigned columns with deprecated signed-order statistics.",
@@ -43,7 +43,7 @@ CLAIMS = {
   "design": "§3 C11"},
  "C12": {
   "text": "Bounded model checking of Add/Sub/Mul/Div/Rem/Negate::execute for every integer width through the real executor: in the representable region the output equals the exact mathematical result (oracle: std checked_*); in the unrepresentable region (overflow, zero divisor) the statement must return an error. Integer->decimal and decimal->decimal rescaling exactness/precision (shared with C13). The unrepresentable region fails today for every operator (known findings F1/F2: raw operators panic or wrap) and is kept in separate harnesses so the exact region stays a live regression check.",
-  "note": "Bounds: one-row arrays; full-width operands except div/rem exact for >=32-bit (|a|,|b| < 2^15) and mul err for >=64-bit (|b| < 2^8), stated in evidence. Outside: SUM/AVG states (C07), decimal arithmetic result-type rules (C18), float arithmetic, abs/round/ceil/floor, gcd/lcm/factorial.",
+  "note": "Bounds: one-row arrays; full-width operands except div/rem exact for >=32-bit (|a|,|b| < 2^15) and mul for 64-bit (|b| < 2^8) and unsigned 128-bit (b < 8; the signed 128-bit exact-region harness gave no verdict in 1800 s and is not registered), stated in evidence. Outside: SUM/AVG states (C07), decimal arithmetic result-type rules (C18), float arithmetic, abs/round/ceil/floor, gcd/lcm/factorial.",
   "design": "§3 C12"},
  "C13": {
   "text": "Bounded model checking of the real cast kernels PrimToPrim (integer->integer all pairs in thorough, float->integer), IntToDecimal and DecimalToDecimal through CastFunction::{bind,cast}: representable => exact; otherwise error (CAST) or NULL (TRY_CAST); decimal results never exceed the target precision; downscaling rounds half away from zero (checked with a multiplication-only characterisation). Found and fixed: 10^scale computed in i32 (two casts), validate_precision overflow on MIN, missing precision check in decimal->decimal.",
